@@ -279,7 +279,7 @@ pub fn run(r: &mut Report) {
     let (shard, nshards) = shard();
     r.rule = "schedules = 2..6 real threads (readers that drop, writers that commit) with random think times before load and between load and commit on one store directory; traces = one real invocation under strace abstracted to open/flock/read/write/truncate/close on the three store files; non-trivial = at least two invocations of which one commits (schedules), every trace; distinct by schedule / trace".into();
     let mut rng = Rng::new(r.seed.wrapping_add(shard.wrapping_mul(49979687)) ^ 0xC18);
-    let n = if r.thorough() { 1600 } else { 160 } / nshards;
+    let n = if r.thorough() { 2400 } else { 320 } / nshards;
     schedules(r, &mut rng, n.max(4));
     traces(r, if r.thorough() { 6 } else { 2 });
 }
